@@ -1,7 +1,7 @@
 """C09 -- concurrent sessions are isolated and each request is atomic.
 
 M: spec/Concurrency.tla: sessions invoke requests, each (member) request takes effect in ONE atomic step on the shared tag
-   model (LogixOps), replies return to their session; TLC explores every interleaving of five scenarios (torn-read,
+   model (LogixOps), replies return to their session; TLC explores every interleaving of eight scenarios (torn-read,
    private ranges, bundle + singles, three sessions, mixed): TagsWellFormed, PrivateKept, NoTornRead, termination.
 R: forced schedules on real threads: one thread per session runs the real per-frame pipeline (enip_machine, logix.process,
    reply encoding); the locks of the shared parsers and every access to the tag storage are scheduling points; a
@@ -23,7 +23,7 @@ import tempfile
 from .. import core, tlc
 
 LEVEL = "model_checking"
-SCEN = ["torn", "private", "bundle", "three", "mixed", "attr", "conn"]
+SCEN = ["torn", "private", "bundle", "three", "mixed", "attr", "conn", "xtype"]
 
 
 def final_table(nsess):
